@@ -148,6 +148,8 @@ def rand_where(rng, depth=3):
 def rand_kws(rng, bad=False):
     n = rng.choice([0, 1, 1, 2, 2, 3])
     names = rng.sample(['id', 'a', 'b', 's', 'fkID', 'fk', 'u'], n)
+    if n and 'id' not in names and rng.random() < 0.15:
+        names[0] = 'id'           # the id keyword, alone and combined with other columns
     if not bad and 'fk' in names and 'fkID' in names:
         names.remove('fk')
     if bad and rng.random() < 0.5:
@@ -158,7 +160,7 @@ def rand_kws(rng, bad=False):
         if c is None:
             out.append([k, ['int', 1]])
             continue
-        v = rng.choice(dom(c)) if c != 'id' else rng.choice([1, 2, 3, 9])
+        v = rng.choice(dom(c)) if c != 'id' else rng.choice([None, None, 1, 2, 3, 4, 9])
         if v is None:
             out.append([k, None])
         elif k == 'fk' and rng.random() < 0.6:
@@ -375,11 +377,23 @@ def enum_value_queries():
     qs = []
     for k in ('a', 'b', 's', 'fkID', 'fk', 'u', 'id'):
         c = KW_COL[k]
-        for v in (dom(c) if c != 'id' else [1, 2, 9]):
+        for v in (dom(c) if c != 'id' else [None, 1, 2, 9]):
             vals = [None] if v is None else [['int', v]] + ([['obj', v]] if c == 'fk' else [])
             for kv in vals:
                 for fin in (['list'], ['count'], ['getone', True], ['getone', False]):
                     qs.append(sel_query(['selectBy', [[k, kv]]], (), fin))
+    # the id keyword (an existing id, an absent id, None) combined with one other column (a value, None)
+    for idv in (None, ['int', 1], ['int', 2], ['int', 9]):
+        for k in ('a', 'b', 's', 'fk', 'u'):
+            c = KW_COL[k]
+            for v in (None, dom(c)[1], dom(c)[-1]):
+                kv = None if v is None else ['int', v]
+                for order in (0, 1):
+                    kws = [['id', idv], [k, kv]]
+                    if order:
+                        kws.reverse()
+                    for fin in (['list'], ['count'], ['getone', False], ['agg', 'sum', ['raw', 'id']]):
+                        qs.append(sel_query(['selectBy', kws], (), fin))
     for a in AGG_ATTRS + [['raw', 's'], ['field', 's']]:
         for m in ('sum', 'min', 'max', 'avg'):
             if a[-1] == 's' and m in ('sum', 'avg'):
@@ -440,6 +454,10 @@ def corpus():
             sel_query(['select', ['true'], ['list', []], False, False]),
             sel_query(['select', ['true'], ['nodefault'], False, True], [], ['agg', 'sum', ['raw', 'a']]),
             sel_query(['select', ['eq', 'a', 7], ['nodefault'], False, False], [], ['agg', 'avg', ['raw', 'a']]),
+            # selectBy(id=None) is `id IS NULL`: no row, also combined with other keywords
+            sel_query(['selectBy', [['id', None]]]), sel_query(['selectBy', [['id', None]]], (), ['count']),
+            sel_query(['selectBy', [['id', None], ['a', ['int', 1]]]]), sel_query(['selectBy', [['a', None], ['id', None]]], (), ['getone', False]),
+            sel_query(['selectBy', [['id', None]]], (), ['agg', 'max', ['raw', 'a']]),
             {'k': 'alt', 'v': None}, {'k': 'alt', 'v': ['int', 11]},
             {'k': 'index', 'dflt': ['nodefault'], 'mode': 'pos', 's': None, 'fk': None},
         ]]]},
